@@ -20,6 +20,8 @@ fn main() {
         "acct" => mcv::evict::run_c15(&ctx),
         "backpressure" => mcv::l3::run_backpressure(&ctx),
         "bloat" => mcv::l3::run_bloat(&ctx),
+        "slots" => mcv::l3b::run_c17(&ctx),
+        "fault" => mcv::l3b::run_c18(&ctx),
         "pipe" => mcv::l3::run_c12(&ctx),
         "toolarge" => mcv::l3::run_c13(&ctx),
         "sockframe" => mcv::l3::run_sock_frames(&ctx),
